@@ -1,7 +1,134 @@
-/- placeholder driver for C17: replaced when the model is built -/
+/-
+  Driver for C17 (tariffs).  One request per line:
+   {"op":"instants","file":f,"ts":[epoch s …],"py":[[month,day,wd,h,mi,s] …]}
+        → rates via the fields Python's datetime supplied, demand charges, number of valid
+          schedules, and the indices where the model's own Calendar decomposition of `ts`
+          (or the rate obtained through it) differs
+   {"op":"tariffs","file":f,"start":t,"n":n,"period":p}       → get_tariffs
+   {"op":"iface","file":f,"sim_start":t,"period":p,"idx":i,"n":n}  → Interface.get_prices / get_demand_charge
+   {"op":"cost","file":f,"sim_start":t,"period":p,"agg":[bits…]}   → energy_cost, demand_charge
+   {"op":"load","file":f}                                      → the loaded schedule list
+   {"op":"decimal","from":a,"to":b}                            → Decimal hour value + flipOk per second of day
+   {"op":"minutes","file":f,"day0":d,"days":k}                 → run-length encoded per-minute rates per day
+-/
 import AcnModel.Wire
-open Lean Acn.Wire
+import AcnModel.Gen.Tariffs
+open Lean Acn Acn.Wire Acn.Tariff
 
-def handle (_ : Json) : Except String Json := throw "driver for C17 not built yet"
+/-- executable form of the Decimal no-flip statement (same as `Acn.C17.flipOk`) -/
+def flipOkD (h m s : Nat) : Bool :=
+  match targetHour h m s with
+  | ⟨c, e⟩ =>
+    let F := (3600 * h + 60 * m + s) / 1800
+    decide (e ≤ 0) && decide (F * 10 ^ (-e).toNat ≤ 2 * c) && decide (2 * c < (F + 1) * 10 ^ (-e).toNat)
+
+def jRes (r : Except Err Float) : Json :=
+  match r with
+  | .ok x => jF x
+  | .error e => jS (errName e)
+
+def jResL (r : Except Err (List Float)) : Json :=
+  match r with
+  | .ok x => jFs x
+  | .error e => jS (errName e)
+
+def findFile (name : String) : Except String (List (Raw Float)) :=
+  match Acn.Gen.Tariffs.filesF.find? (fun p => p.1 == name) with
+  | some p => pure p.2
+  | none => throw s!"unknown tariff file {name}"
+
+def loadFile (name : String) : Except String (Except Err (List (Schedule Float))) := do
+  let raws ← findFile name
+  pure (load raws)
+
+def jRat (q : Rat) : Json := jS s!"{q.num}/{q.den}"
+
+def jSchedule (s : Schedule Float) : Json :=
+  Json.mkObj [("id", jS s.id), ("start", Json.arr #[jN s.start.1, jN s.start.2]),
+    ("stop", Json.arr #[jN s.stop.1, jN s.stop.2]), ("mask", Json.arr (s.mask.map jB).toArray),
+    ("times", Json.arr (s.tariffs.map (fun p => jRat p.1)).toArray),
+    ("rates", jFs (s.tariffs.map (·.2))), ("demand", jF s.demand)]
+
+def natsOf (j : Json) : Except String (List Nat) := do
+  let a ← asArr j
+  a.mapM (fun v => v.getNat?)
+
+def handleInstants (l : List (Schedule Float)) (j : Json) : Except String Json := do
+  let ts ← (← getArr j "ts").mapM (fun v => v.getInt?)
+  let py ← (← getArr j "py").mapM natsOf
+  let mut rates : Array Json := #[]
+  let mut demands : Array Json := #[]
+  let mut counts : Array Json := #[]
+  let mut calbad : Array Json := #[]
+  let mut i := 0
+  for (t, p) in ts.zip py do
+    match p with
+    | [mo, d, wd, h, mi, s] =>
+      let r := getTariff l (mo, d) wd h mi s
+      rates := rates.push (jRes r)
+      demands := demands.push (jRes (getDemand l (mo, d) wd))
+      counts := counts.push (jN (countValid l (mo, d) wd))
+      let f := fieldsOf t
+      let viaCal := getTariffAt l t
+      let same := f.md == (mo, d) && f.wd == wd && f.h == h && f.m == mi && f.s == s &&
+        (jRes viaCal == jRes r)
+      if !same then calbad := calbad.push (jN i)
+    | _ => throw "py fields must be [month,day,wd,h,mi,s]"
+    i := i + 1
+  pure (Json.mkObj [("rates", Json.arr rates), ("demands", Json.arr demands),
+    ("counts", Json.arr counts), ("calbad", Json.arr calbad)])
+
+/-- run-length encoding of a list of results -/
+def rle (xs : List Json) : List (Json × Nat) :=
+  (xs.foldl (fun (acc : List (Json × Nat)) x =>
+    match acc with
+    | (y, n) :: rest => if y == x then (y, n + 1) :: rest else (x, 1) :: acc
+    | [] => [(x, 1)]) []).reverse
+
+def handle (j : Json) : Except String Json := do
+  let op ← getStr j "op"
+  if op == "decimal" then
+    let a ← getNat j "from"
+    let b ← getNat j "to"
+    let mut out : Array Json := #[]
+    let mut bad := 0
+    for t in List.range' a (b - a) do
+      let h := t / 3600; let m := t % 3600 / 60; let s := t % 60
+      let d := targetHour h m s
+      out := out.push (jS s!"{d.c}e{d.e}")
+      if !flipOkD h m s then bad := bad + 1
+    return Json.mkObj [("targets", Json.arr out), ("bad", jN bad)]
+  let name ← getStr j "file"
+  let loaded ← loadFile name
+  if op == "load" then
+    return match loaded with
+      | .ok l => Json.mkObj [("schedules", Json.arr (l.map jSchedule).toArray)]
+      | .error e => Json.mkObj [("err", jS (errName e))]
+  let l ← match loaded with
+    | .ok l => pure l
+    | .error e => return Json.mkObj [("load_err", jS (errName e))]
+  if op == "instants" then
+    handleInstants l j
+  else if op == "tariffs" then
+    let r := getTariffs l (← getInt j "start") (← getNat j "n") (← getNat j "period")
+    pure (Json.mkObj [("prices", jResL r)])
+  else if op == "iface" then
+    let st ← getInt j "sim_start"; let p ← getNat j "period"; let idx ← getInt j "idx"
+    pure (Json.mkObj [("prices", jResL (interfacePrices l st p idx (← getNat j "n"))),
+      ("demand", jRes (interfaceDemand l st p idx))])
+  else if op == "cost" then
+    let st ← getInt j "sim_start"; let p ← getNat j "period"
+    let agg ← getFs j "agg"
+    pure (Json.mkObj [("energy_cost", jRes (energyCost l st p agg)),
+      ("demand_charge", jRes (demandCharge l st agg))])
+  else if op == "minutes" then
+    let d0 ← getInt j "day0"; let k ← getNat j "days"
+    let mut out : Array Json := #[]
+    for i in List.range k do
+      let t0 := (d0 + (i : Int)) * 86400
+      let rs := (List.range 1440).map (fun (mi : Nat) => jRes (getTariffAt l (t0 + (mi : Int) * 60)))
+      out := out.push (Json.arr ((rle rs).map (fun p => Json.arr #[p.1, jN p.2])).toArray)
+    pure (Json.mkObj [("days", Json.arr out)])
+  else throw s!"unknown op {op}"
 
 def main : IO Unit := runDriver handle
